@@ -829,6 +829,22 @@ class _Inliner:
             call, mode = st.value, 'return'
         elif isinstance(st, ast.Expr) and isinstance(st.value, ast.Call):
             call, mode = st.value, 'expr'
+        elif isinstance(st, ast.For) and isinstance(st.iter, ast.Call):
+            # for x in helper(...): the iterable is computed once, before
+            # the loop
+            fn2, ism = self.target(st.iter, cls, qual, nested)
+            if fn2 is not None and self.single_expr(fn2) is None:
+                stmts, res = self.expand(st.iter, fn2, ism, True)
+                if not isinstance(res, (ast.Name, ast.Constant)):
+                    self.uid += 1
+                    tmp = f'_t__{fn2.name.strip("_")}{self.uid}'
+                    stmts = stmts + [ast.Assign(
+                        targets=[ast.Name(id=tmp, ctx=ast.Store())],
+                        value=res)]
+                    res = ast.Name(id=tmp, ctx=ast.Load())
+                st.iter = res
+                return stmts + [st]
+            return None
         elif isinstance(st, ast.If):
             t = st.test
             neg = 0
